@@ -6,6 +6,14 @@ props = [json.loads(l) for l in open(f'{ROOT}/properties.jsonl')]
 
 # id -> dict(level, text, note, technique, engine, design)
 CHECKS = {
+ 'C17': dict(level='model_checking', engine='kvmc',
+   text='Explicit-state enumeration of every applicable operation sequence up to length L (quick 5 / thorough 7 in-memory, 4 / 5 Bolt) over a 2x2x3 bucket/key/value alphabet on MemDB, CacheDB(MemDB), CacheDB(CacheDB(MemDB)), BoltChainDB and CacheDB(BoltChainDB); every Bucket/Get/Iter observation after every operation is compared with a two-map reference model.',
+   note='nil-valued puts excluded; nil and empty Get results not distinguished; bbolt atomic commit trusted. Chain-level clause is exercised by the C02 backend replay.',
+   technique='explicit-state enumeration of operation sequences on the real backends against a reference model', design='§3 E2, §4 C17'),
+ 'C20': dict(level='exploration', engine='seedmc',
+   text='Exhaustive enumeration of structured families (all <=2-bit masks on 8 base entropies, every 11-bit window x 2048 values, every word position x 2048 words on 8 phrases, whitespace variants at every gap, malformed phrases, boundary key indices) against an independent big-integer BIP-39 reference anchored on published vectors.',
+   note='The full 2^128 space is not enumerable; exhaustive only inside the stated families. SHA-256/blake2b/ed25519 trusted.',
+   technique='exhaustive enumeration of bounded input families against an independent reference', design='§3 E7, §4 C20'),
  'C18': dict(level='model_checking', engine='sched',
    text='Exhaustive schedule enumeration (iterative preemption bounding, bound 2 quick / 4 thorough) of the real threadgroup.ThreadGroup under a cooperative scheduler: Stop never returns while an admitted thread is running, Add after Stop is rejected, no deadlock, no WaitGroup misuse.',
    note='Interleavings at lock/WaitGroup granularity; memory-model effects only via the separate free-running -race pass. Go runtime trusted.',
